@@ -1,8 +1,327 @@
-(* C14 — proofs about util.Bitmask (Model.v: bm_*). *)
+(* C14 - proofs about util.Bitmask (the bm_ functions of Model.v) and the machine-integer helpers. *)
 From Coq Require Import ZArith List Bool Lia.
 From C14 Require Import Model.
 Import ListNotations.
 Open Scope Z_scope.
 
+(* ------------------------------------------------------------------ finite enumeration *)
+Definition zrange (n : nat) : list Z := map Z.of_nat (seq 0 n).
+
+Lemma in_zrange : forall n x, 0 <= x < Z.of_nat n -> In x (zrange n).
+Proof.
+  intros n x H. unfold zrange. apply in_map_iff. exists (Z.to_nat x). split; [lia|].
+  apply in_seq. lia.
+Qed.
+
+Lemma in_zrange_inv : forall n x, In x (zrange n) -> 0 <= x < Z.of_nat n.
+Proof.
+  intros n x H. unfold zrange in H. apply in_map_iff in H. destruct H as [k [<- H]].
+  apply in_seq in H. lia.
+Qed.
+
+(* bit k of byte x is set, for some k between lb and rb *)
+Definition bits_between (x lb rb : Z) : bool :=
+  existsb (fun k => (lb <=? k) && (k <=? rb) && get_bit x k) (zrange 8).
+
+Lemma bits_between_true : forall x lb rb,
+  bits_between x lb rb = true <-> exists k, 0 <= k < 8 /\ lb <= k <= rb /\ get_bit x k = true.
+Proof.
+  intros. unfold bits_between. rewrite existsb_exists. split.
+  - intros [k [Hin H]]. apply in_zrange_inv in Hin. exists k.
+    apply andb_true_iff in H. destruct H as [H H3]. apply andb_true_iff in H. destruct H as [H1 H2].
+    repeat split; try lia; auto.
+  - intros [k [H0 [H1 H2]]]. exists k. split; [apply in_zrange; simpl; lia|].
+    rewrite H2. replace (lb <=? k) with true by (symmetry; apply Z.leb_le; lia).
+    replace (k <=? rb) with true by (symmetry; apply Z.leb_le; lia). reflexivity.
+Qed.
+
+(* ------------------------------------------------------------------ byte facts, by exhaustive check *)
+Definition byte_check : bool :=
+  forallb (fun x =>
+    Bool.eqb (0 <? x) (bits_between x 0 7) &&
+    forallb (fun a =>
+      Bool.eqb (0 <? Z.land x (left_mask a)) (bits_between x a 7) &&
+      Bool.eqb (0 <? Z.land x (right_mask (a + 1))) (bits_between x 0 a) &&
+      (0 <=? set_bit x a) && (set_bit x a <? 256) &&
+      forallb (fun b =>
+        Bool.eqb (0 <? Z.land (Z.land x (left_mask a)) (right_mask (b + 1))) (bits_between x a b) &&
+        Bool.eqb (get_bit (set_bit x a) b) ((b =? a) || get_bit x b)) (zrange 8)) (zrange 8)) (zrange 256).
+
+Lemma byte_check_ok : byte_check = true.
+Proof. vm_compute. reflexivity. Qed.
+
+Section ByteFacts.
+  Variable x : Z.
+  Hypothesis Hx : 0 <= x < 256.
+
+  Let HX : In x (zrange 256). Proof. apply in_zrange. simpl. lia. Qed.
+
+  Lemma byte_pos : (0 <? x) = bits_between x 0 7.
+  Proof.
+    pose proof byte_check_ok as H. unfold byte_check in H. rewrite forallb_forall in H.
+    specialize (H x HX). apply andb_true_iff in H. destruct H as [H _]. apply eqb_prop in H. exact H.
+  Qed.
+
+  Section A.
+    Variable a : Z.
+    Hypothesis Ha : 0 <= a < 8.
+    Let HA : In a (zrange 8). Proof. apply in_zrange. simpl. lia. Qed.
+
+    Lemma byte_a_facts :
+      (0 <? Z.land x (left_mask a)) = bits_between x a 7 /\
+      (0 <? Z.land x (right_mask (a + 1))) = bits_between x 0 a /\
+      0 <= set_bit x a < 256 /\
+      forall b, 0 <= b < 8 ->
+        (0 <? Z.land (Z.land x (left_mask a)) (right_mask (b + 1))) = bits_between x a b /\
+        get_bit (set_bit x a) b = ((b =? a) || get_bit x b).
+    Proof.
+      pose proof byte_check_ok as H. unfold byte_check in H. rewrite forallb_forall in H.
+      specialize (H x HX). apply andb_true_iff in H. destruct H as [_ H].
+      rewrite forallb_forall in H. specialize (H a HA).
+      repeat (apply andb_true_iff in H; let H' := fresh "H" in destruct H as [H H']).
+      apply eqb_prop in H. apply eqb_prop in H3. apply Z.leb_le in H2. apply Z.ltb_lt in H1.
+      repeat split; auto.
+      - rewrite forallb_forall in H0. specialize (H0 b (in_zrange 8 b ltac:(simpl; lia))).
+        apply andb_true_iff in H0. destruct H0 as [H0 _]. apply eqb_prop in H0. exact H0.
+      - rewrite forallb_forall in H0. specialize (H0 b (in_zrange 8 b ltac:(simpl; lia))).
+        apply andb_true_iff in H0. destruct H0 as [_ H0]. apply eqb_prop in H0. exact H0.
+    Qed.
+  End A.
+End ByteFacts.
+
+Lemma get_bit_zero : forall k, get_bit 0 k = false.
+Proof. intros. unfold get_bit. rewrite Z.land_0_l. reflexivity. Qed.
+
+(* ------------------------------------------------------------------ lists of bytes *)
+Definition bytes_ok (bin : list Z) : Prop := Forall (fun x => 0 <= x < 256) bin.
+
+Lemma byte_at_range : forall bin i, bytes_ok bin -> 0 <= byte_at bin i < 256.
+Proof.
+  intros bin i H. unfold byte_at.
+  destruct (Nat.lt_ge_cases (Z.to_nat i) (length bin)) as [Hl|Hl].
+  - unfold bytes_ok in H. rewrite Forall_forall in H. apply H. apply nth_In. exact Hl.
+  - rewrite nth_overflow by exact Hl. lia.
+Qed.
+
+Lemma upd_nth_length : forall l n f, length (upd_nth n f l) = length l.
+Proof. induction l; intros [|n] f; simpl; auto. Qed.
+
+Lemma upd_nth_nth : forall l n f m,
+  nth m (upd_nth n f l) 0 = if (Nat.eqb m n && (n <? length l)%nat)%bool then f (nth n l 0) else nth m l 0.
+Proof.
+  induction l; intros n f m.
+  - simpl. destruct n, m; simpl; try rewrite andb_false_r; reflexivity.
+  - destruct n, m; simpl; auto.
+    rewrite IHl. reflexivity.
+Qed.
+
+Lemma upd_nth_ok : forall l n f, bytes_ok l -> (forall x, 0 <= x < 256 -> 0 <= f x < 256) ->
+  bytes_ok (upd_nth n f l).
+Proof.
+  induction l; intros n f H Hf; simpl.
+  - destruct n; constructor.
+  - inversion H; subst. destruct n; constructor; auto. apply IHl; auto.
+Qed.
+
+Lemma nth_skipn' : forall {A} (l : list A) m k d, nth k (skipn m l) d = nth (m + k) l d.
+Proof.
+  intros A l. induction l; intros m k d.
+  - rewrite skipn_nil. destruct k, (m + 0)%nat, m; reflexivity.
+  - destruct m; simpl; auto.
+Qed.
+
+Lemma nth_firstn' : forall {A} (l : list A) n k d, (k < n)%nat -> nth k (firstn n l) d = nth k l d.
+Proof.
+  intros A l. induction l; intros n k d H.
+  - rewrite firstn_nil. reflexivity.
+  - destruct n; [lia|]. destruct k; simpl; auto. apply IHl. lia.
+Qed.
+
+Lemma in_slice_nth : forall (l : list Z) m n x,
+  In x (firstn n (skipn m l)) -> exists j, (m <= j < m + n)%nat /\ (j < length l)%nat /\ nth j l 0 = x.
+Proof.
+  intros l m n x H. apply In_nth with (d := 0) in H. destruct H as [k [Hk Hx]].
+  rewrite firstn_length, skipn_length in Hk.
+  rewrite nth_firstn' in Hx by lia.
+  rewrite nth_skipn' in Hx. exists (m + k)%nat. repeat split; try lia; try exact Hx.
+Qed.
+
+Lemma nth_in_slice : forall (l : list Z) m n j,
+  (m <= j < m + n)%nat -> (j < length l)%nat -> In (nth j l 0) (firstn n (skipn m l)).
+Proof.
+  intros l m n j H Hl. replace j with (m + (j - m))%nat by lia.
+  rewrite <- nth_skipn'. set (k := (j - m)%nat).
+  assert (Hk : (k < n)%nat) by (unfold k; lia).
+  assert (Hk2 : (k < length (skipn m l))%nat) by (rewrite skipn_length; unfold k; lia).
+  replace (nth k (skipn m l) 0) with (nth k (firstn n (skipn m l)) 0).
+  - apply nth_In. rewrite firstn_length. lia.
+  - apply nth_firstn'. exact Hk.
+Qed.
+
+(* ------------------------------------------------------------------ HasBitsIn *)
+Lemma div_mod_8 : forall i, 0 <= i -> i = 8 * (i / 8) + i mod 8 /\ 0 <= i mod 8 < 8 /\ 0 <= i / 8.
+Proof.
+  intros i H. pose proof (Z.div_mod i 8 ltac:(lia)). pose proof (Z.mod_pos_bound i 8 ltac:(lia)).
+  pose proof (Z.div_pos i 8 H ltac:(lia)). lia.
+Qed.
+
+Lemma bm_get_at : forall b j k, 0 <= j -> 0 <= k < 8 ->
+  bm_get b (8 * j + k) = get_bit (byte_at (bm_bin b) j) k.
+Proof.
+  intros b j k Hj Hk. unfold bm_get.
+  replace ((8 * j + k) / 8) with j by (apply Z.div_unique with k; lia).
+  replace ((8 * j + k) mod 8) with k by (apply Z.mod_unique with j; lia).
+  reflexivity.
+Qed.
+
+Theorem has_bits_in_spec : forall b l r,
+  bytes_ok (bm_bin b) -> 0 <= l -> l <= r ->
+  (bm_has_bits_in b l r = true <-> exists i, l <= i <= r /\ bm_get b i = true).
+Proof.
+  intros b l r Hok Hl Hlr.
+  destruct (div_mod_8 l Hl) as [El [Bl Dl]].
+  destruct (div_mod_8 r ltac:(lia)) as [Er [Br Dr]].
+  set (li := l / 8) in *. set (ri := r / 8) in *. set (lb := l mod 8) in *. set (rb := r mod 8) in *.
+  assert (Hle : li <= ri) by (unfold li, ri; apply Z.div_le_mono; lia).
+  pose proof (byte_at_range (bm_bin b) li Hok) as Rli.
+  pose proof (byte_at_range (bm_bin b) ri Hok) as Rri.
+  destruct (byte_a_facts _ Rli lb Bl) as [FL [_ [_ FLR]]].
+  destruct (byte_a_facts _ Rri rb Br) as [_ [FR [_ _]]].
+  unfold bm_has_bits_in. fold li ri lb rb.
+  destruct (Z.eqb_spec li ri) as [Heq|Hne].
+  - (* same byte *)
+    destruct (FLR rb Br) as [F _]. rewrite F. rewrite bits_between_true. split.
+    + intros [k [Hk [Hk2 Hg]]]. exists (8 * li + k). split; [lia|]. rewrite bm_get_at by lia. exact Hg.
+    + intros [i [Hi Hg]]. destruct (div_mod_8 i ltac:(lia)) as [Ei [Bi Di]].
+      assert (i / 8 = li).
+      { assert (li <= i / 8) by (unfold li; apply Z.div_le_mono; lia).
+        assert (i / 8 <= ri) by (unfold ri; apply Z.div_le_mono; lia). lia. }
+      exists (i mod 8). split; [lia|]. split; [lia|].
+      unfold bm_get in Hg. rewrite H in Hg. exact Hg.
+  - assert (Hlt : li < ri) by lia. clear Hne.
+    rewrite FL, FR.
+    split.
+    + intros H.
+      destruct (bits_between (byte_at (bm_bin b) li) lb 7) eqn:E1.
+      { apply bits_between_true in E1. destruct E1 as [k [Hk [Hk2 Hg]]].
+        exists (8 * li + k). split; [lia|]. rewrite bm_get_at by lia. exact Hg. }
+      destruct (bits_between (byte_at (bm_bin b) ri) 0 rb) eqn:E2.
+      { apply bits_between_true in E2. destruct E2 as [k [Hk [Hk2 Hg]]].
+        exists (8 * ri + k). split; [lia|]. rewrite bm_get_at by lia. exact Hg. }
+      apply existsb_exists in H. destruct H as [x [Hin Hx]].
+      apply in_slice_nth in Hin. destruct Hin as [j [Hj [Hjl Hnth]]].
+      assert (Rx : 0 <= x < 256).
+      { subst x. unfold bytes_ok in Hok. rewrite Forall_forall in Hok. apply Hok. apply nth_In. exact Hjl. }
+      rewrite (byte_pos x Rx) in Hx. apply bits_between_true in Hx. destruct Hx as [k [Hk [_ Hg]]].
+      exists (8 * Z.of_nat j + k). split; [lia|]. rewrite bm_get_at by lia.
+      unfold byte_at. rewrite Nat2Z.id. rewrite Hnth. exact Hg.
+    + intros [i [Hi Hg]]. destruct (div_mod_8 i ltac:(lia)) as [Ei [Bi Di]].
+      assert (H1 : li <= i / 8) by (unfold li; apply Z.div_le_mono; lia).
+      assert (H2 : i / 8 <= ri) by (unfold ri; apply Z.div_le_mono; lia).
+      unfold bm_get in Hg.
+      destruct (bits_between (byte_at (bm_bin b) li) lb 7) eqn:E1; [reflexivity|].
+      destruct (bits_between (byte_at (bm_bin b) ri) 0 rb) eqn:E2; [reflexivity|].
+      assert (Hmid : li < i / 8 < ri).
+      { split.
+        - destruct (Z.eq_dec (i / 8) li) as [E|E]; [|lia]. exfalso.
+          rewrite E in Hg. assert (bits_between (byte_at (bm_bin b) li) lb 7 = true).
+          { apply bits_between_true. exists (i mod 8). repeat split; try lia. exact Hg. }
+          congruence.
+        - destruct (Z.eq_dec (i / 8) ri) as [E|E]; [|lia]. exfalso.
+          rewrite E in Hg. assert (bits_between (byte_at (bm_bin b) ri) 0 rb = true).
+          { apply bits_between_true. exists (i mod 8). repeat split; try lia. exact Hg. }
+          congruence. }
+      apply existsb_exists. exists (byte_at (bm_bin b) (i / 8)).
+      assert (Hlen : (Z.to_nat (i / 8) < length (bm_bin b))%nat).
+      { destruct (Nat.lt_ge_cases (Z.to_nat (i / 8)) (length (bm_bin b))) as [L|L]; auto.
+        exfalso. unfold byte_at in Hg. rewrite nth_overflow in Hg by exact L.
+        rewrite get_bit_zero in Hg. discriminate. }
+      split.
+      * unfold byte_at. apply nth_in_slice; lia.
+      * pose proof (byte_at_range (bm_bin b) (i / 8) Hok) as R. rewrite (byte_pos _ R).
+        apply bits_between_true. exists (i mod 8). repeat split; try lia. exact Hg.
+Qed.
+
+(* ------------------------------------------------------------------ Set / Get *)
+Lemma bm_set_ok : forall b p, bytes_ok (bm_bin b) -> 0 <= p -> bytes_ok (bm_bin (bm_set b p)).
+Proof.
+  intros b p H Hp. simpl. apply upd_nth_ok; auto.
+  intros x Hx. destruct (div_mod_8 p Hp) as [_ [B _]].
+  destruct (byte_a_facts x Hx (p mod 8) B) as [_ [_ [R _]]]. exact R.
+Qed.
+
+Lemma bm_set_length : forall b p, length (bm_bin (bm_set b p)) = length (bm_bin b).
+Proof. intros. simpl. apply upd_nth_length. Qed.
+
+Lemma bm_set_size : forall b p, bm_size (bm_set b p) = bm_size b.
+Proof. reflexivity. Qed.
+
+(* after Set(p): bit p is set (when p lies inside the byte array), all other bits are unchanged *)
+Lemma bm_get_set : forall b p q, bytes_ok (bm_bin b) -> 0 <= p -> 0 <= q ->
+  (Z.to_nat (p / 8) < length (bm_bin b))%nat ->
+  bm_get (bm_set b p) q = ((q =? p) || bm_get b q).
+Proof.
+  intros b p q Hok Hp Hq Hlen.
+  destruct (div_mod_8 p Hp) as [Ep [Bp Dp]]. destruct (div_mod_8 q Hq) as [Eq [Bq Dq]].
+  unfold bm_get, bm_set, byte_at. simpl. rewrite upd_nth_nth.
+  replace (Z.to_nat (p / 8) <? length (bm_bin b))%nat with true by (symmetry; apply Nat.ltb_lt; exact Hlen).
+  rewrite andb_true_r.
+  destruct (Nat.eqb_spec (Z.to_nat (q / 8)) (Z.to_nat (p / 8))) as [E|E].
+  - assert (E' : q / 8 = p / 8) by lia.
+    pose proof (byte_at_range (bm_bin b) (p / 8) Hok) as R. unfold byte_at in R.
+    destruct (byte_a_facts _ R (p mod 8) Bp) as [_ [_ [_ F]]].
+    destruct (F (q mod 8) Bq) as [_ G]. rewrite G. rewrite E.
+    destruct (Z.eqb_spec (q mod 8) (p mod 8)); destruct (Z.eqb_spec q p); try reflexivity; lia.
+  - destruct (Z.eqb_spec q p) as [->|]; [contradiction|]. reflexivity.
+Qed.
+
+Lemma bm_new_ok : forall size, bytes_ok (bm_bin (bm_new size)).
+Proof. intros. simpl. unfold bytes_ok. apply Forall_forall. intros x H. apply repeat_spec in H. lia. Qed.
+
+Lemma bm_new_length : forall size, length (bm_bin (bm_new size)) = bm_nbytes size.
+Proof. intros. simpl. apply repeat_length. Qed.
+
+(* a position below size lies inside the byte array of a bitmask with the right length *)
+Lemma pos_in_bytes : forall size p, 0 <= p < size -> (Z.to_nat (p / 8) < bm_nbytes size)%nat.
+Proof.
+  intros size p H. unfold bm_nbytes.
+  assert (p / 8 < (size + 7) / 8).
+  { apply Z.div_lt_upper_bound; [lia|].
+    pose proof (Z.div_mod (size + 7) 8 ltac:(lia)). pose proof (Z.mod_pos_bound (size + 7) 8 ltac:(lia)). lia. }
+  pose proof (Z.div_pos p 8 ltac:(lia) ltac:(lia)). lia.
+Qed.
+
+(* ------------------------------------------------------------------ machine integers *)
 Lemma to_i64_small : forall u, 0 <= u < two63 -> to_i64 u = u.
 Proof. intros u H. unfold to_i64. destruct (Z.ltb_spec u two63); lia. Qed.
+
+Lemma to_i64_u64 : forall i, - two63 <= i < two63 -> to_i64 (to_u64 i) = i.
+Proof.
+  intros i H. unfold to_i64, to_u64, two63, two64 in *.
+  destruct (Z_lt_le_dec i 0).
+  - replace (i mod 18446744073709551616) with (i + 18446744073709551616)
+      by (apply Z.mod_unique with (-1); lia).
+    destruct (Z.ltb_spec (i + 18446744073709551616) 9223372036854775808); lia.
+  - rewrite Z.mod_small by lia. destruct (Z.ltb_spec i 9223372036854775808); lia.
+Qed.
+
+Lemma sub_ns_mono : forall t1 t2 u, t1 <= t2 -> sub_ns t1 u <= sub_ns t2 u.
+Proof.
+  intros. unfold sub_ns, ns_per_ms, max_dur, min_dur, two63.
+  repeat match goal with |- context [?a >? ?b] => destruct (Z.gtb_spec a b) end;
+  repeat match goal with |- context [?a <? ?b] => destruct (Z.ltb_spec a b) end; lia.
+Qed.
+
+Lemma sub_ns_nonneg : forall t u, u <= t -> 0 <= sub_ns t u.
+Proof.
+  intros. unfold sub_ns, ns_per_ms, max_dur, min_dur, two63.
+  repeat match goal with |- context [?a >? ?b] => destruct (Z.gtb_spec a b) end;
+  repeat match goal with |- context [?a <? ?b] => destruct (Z.ltb_spec a b) end; lia.
+Qed.
+
+Lemma sub_ns_exact : forall t u, min_dur <= (t - u) * ns_per_ms <= max_dur -> sub_ns t u = (t - u) * ns_per_ms.
+Proof.
+  intros. unfold sub_ns.
+  destruct (Z.gtb_spec ((t - u) * ns_per_ms) max_dur); [lia|].
+  destruct (Z.ltb_spec ((t - u) * ns_per_ms) min_dur); lia.
+Qed.
